@@ -57,7 +57,8 @@ CHECKS["C02"] = dict(
     level_text="Every reachable state within the depth bound is visited; at every Mutes event and after every history the verdict (bool and marked silence ids) for two alerts is compared with a brute-force evaluation of the raw store dump by an independent matcher evaluator, and Query(active) with a direct scan after every event.",
     level_note="Bounds: 3 silences (one with two matcher sets), time unit 1s, ends +2/+4, retention 3; depth 6 (quick) / 9 (thorough). Instants where an end equals now are not judged. Pruning is sound because the key is the complete state and the code is deterministic.",
     assumptions=E1_ASSUME,
-    units=[dict(pkg="silence", test="TestVerifC02Obj", shards_quick=16, shards_thorough=16, budget_quick=90, budget_thorough=1200)],
+    units=[dict(pkg="silence", test="TestVerifC02Obj", shards_quick=12, shards_thorough=16, budget_quick=90, budget_thorough=1200),
+           dict(pkg="silence", test="TestVerifC02Sched", gomaxprocs=1, shards_quick=4, shards_thorough=16, budget_quick=60, budget_thorough=900)],
 )
 
 CHECKS["C12"] = dict(
